@@ -11,6 +11,7 @@ import (
 	"encoding/json"
 	"os"
 	"path/filepath"
+	"strings"
 	"testing"
 
 	"pgregory.net/rapid"
@@ -30,7 +31,18 @@ func toolFail(name string, r toolResult) *harness.Fail {
 	return harness.Failf("C06|"+name+"|error on valid input", "exit %d: %s", r.Exit, tail(r.Stderr+r.Stdout, 600))
 }
 
+// checkTools: as for checkRoundTrip, a refusal of mp4ff-encrypt is correct when a sample's sub-sample table
+// cannot be sized by saiz.
 func checkTools(rc rtCase) *harness.Fail {
+	f := checkTools1(rc)
+	if f != nil && rc.Case.SaizLimit() && strings.HasPrefix(f.Key, "C06|mp4ff-encrypt") && strings.HasSuffix(f.Key, "|error on valid input") {
+		harness.Rec.Class("refused: sub-sample table beyond the saiz size limit")
+		return nil
+	}
+	return f
+}
+
+func checkTools1(rc rtCase) *harness.Fail {
 	if f := missingBin("mp4ff-encrypt", "mp4ff-decrypt"); f != nil {
 		return f
 	}
